@@ -48,6 +48,9 @@ def tailOk : Tail → Bool
   | .clean => true
   | _ => false
 
+/-- a leading "b" only says the harness source also has a bufio-style Discard method -/
+def normFin (fin : String) : String := if fin.startsWith "b" then (fin.drop 1).toString else fin
+
 /-- how the stream's end must be reported when a unit is cut or absent -/
 def endVerdict (p : Parsed) (midUnit : Bool) (fin : String) (err : String) : Option String :=
   if (match p.tail with | .badLength _ => true | _ => false) then
@@ -72,6 +75,7 @@ def failOk (fin k : String) (total stop : Nat) (err : String) : Bool :=
 def rmOracle (a : List String) (obs : String) : String :=
   match a, obs.splitOn " " with
   | [st, hex, kS, fin], [ms, err, pos] =>
+    let fin := normFin fin
     let bs := hexOr hex
     let p := parseFor (natOr st) false bs
     match p.us with
@@ -158,6 +162,7 @@ def judgeCtl (client : Bool) (op : Nat) (payload : Bytes) (masks : List Mask) (e
 def rddOracle (a : List String) (obs : String) : String :=
   match a with
   | [st, want, hex, kS, fin, _] =>
+    let fin := normFin fin
     let head := (obs.splitOn " masks=").headD ""
     match head.splitOn " " with
     | [res, err, pos, wr] =>
@@ -280,6 +285,7 @@ open Ws Ws.Spec
 def rdrOracle (a : List String) (obs : String) : String :=
   match a with
   | st :: cfg :: hex :: kS :: fin :: script =>
+    let fin := normFin fin
     let total := (hexOr hex).length
     let c := parseCfg cfg
     -- with SkipHeaderCheck the rule set is off: streams breaking a rule are judged by the model only
